@@ -284,7 +284,7 @@ def _cases(tier, rng):
 def nontrivial(case, out):
     return 'SFired' in out
 
-STAGES = [dict(name='routes', mode='app', coq='Check.C19m', noshrink=True, cases=cases, nontrivial=nontrivial, shard=20,
+STAGES = [dict(name='routes', mode='app', coq='Check.C19m', profile=('Proofs.JudgeC19P', 'JudgeC19P.profile_C19mb', 'C19_routes_judgement_sound (needs in addition that all routes of a case carry the same scenario: every family except rebind-in-place) / C19_app_judgement_transfer per route'), noshrink=True, cases=cases, nontrivial=nontrivial, shard=20,
                exhaustive={'thorough': False, 'quick': False},
                rule='(a) for each of 25 (quick) / 120 (thorough) generated logical binding sequences of 1-4 inputs (with own scripted modifiers/conditions and 0-2 modifiers attached to every element), the action is '
                     'built through every route of the menu that denotes it - repeated to() calls, flat tuple, nested tuples, mixed calls, with_modifiers_each over tuples, slices, &Vec, arrays, tuples of slices - all through '
